@@ -33,7 +33,9 @@ const lMaxConns = 5
 
 var (
 	lErrClosing = fmt.Errorf("lacc: %w", net.ErrClosed)
-	lErrAccept  = errors.New("lacc: accept failure")
+	// an accepter that is not a net.Listener reports its closing with the library's own closed-channel error
+	lErrClosingChan = fmt.Errorf("lacc: %w", channel.ErrClosed)
+	lErrAccept      = errors.New("lacc: accept failure")
 	// an accepter failure that calls itself temporary (a net.Error with Temporary() and Timeout() true, as a
 	// *net.OpError wrapping EMFILE or a deadline does): to Loop it is an accepter failure like any other
 	lErrAcceptTemp error = lTempErr{}
@@ -634,10 +636,18 @@ func (r *loopRun) envAerr(other bool) {
 		r.acc.ch <- laccItem{err: r.otherAcceptErr()}
 	} else {
 		r.log.item("env\taerr\tclosing")
-		r.acc.ch <- laccItem{err: lErrClosing}
+		r.acc.ch <- laccItem{err: r.closingErr()}
 	}
 	r.accepting = false
 	r.endWindow()
+}
+
+// closingErr: every second scenario's accepter reports closing with an error wrapping channel.ErrClosed.
+func (r *loopRun) closingErr() error {
+	if r.otherBase%2 == 1 {
+		return lErrClosingChan
+	}
+	return lErrClosing
 }
 
 func (r *loopRun) envCtxEnd() {
@@ -802,7 +812,7 @@ func (r *loopRun) raceGroup(n int) {
 					r.acc.ch <- laccItem{err: r.otherAcceptErr()}
 				} else {
 					r.log.item("env\taerr\tclosing")
-					r.acc.ch <- laccItem{err: lErrClosing}
+					r.acc.ch <- laccItem{err: r.closingErr()}
 				}
 				r.accepting = false
 			}})
@@ -1098,7 +1108,7 @@ func runLoopScenario(t *testing.T, fam string, seed uint64, idx int, out *bufio.
 				r.accepting = false
 			case 1:
 				r.log.item("env\taerr\tclosing")
-				r.acc.ch <- laccItem{err: lErrClosing}
+				r.acc.ch <- laccItem{err: r.closingErr()}
 				r.accepting = false
 			}
 		}
